@@ -1,6 +1,6 @@
 (** C09 - Socket.IO encoding round-trips, matches the v5 format, leaves its input intact.
     This file holds statements only; every proof is `exact <lemma>`. *)
-From SioV Require Import Base.GoSem Sio.Json Sio.JsonProofs Sio.Header Sio.HeaderProofs Sio.Binary Sio.BinaryProofs Sio.Codec Sio.CodecProofs Sio.RoundtripProofs Sio.ReconProofs Sio.DecodeProofs Sio.PrescanProofs Sio.PlainProofs.
+From SioV Require Import Base.GoSem Sio.Json Sio.JsonProofs Sio.Header Sio.HeaderProofs Sio.Binary Sio.BinaryProofs Sio.Codec Sio.CodecProofs Sio.RoundtripProofs Sio.ReconProofs Sio.DecodeProofs Sio.PrescanProofs Sio.PlainProofs Sio.EncodeConc.
 
 (** Encode hands back the value it was given exactly as it was (every cell deconstruct overwrote
     with a placeholder is restored), for every JSON library, value tree of any depth, header and
@@ -286,3 +286,36 @@ Theorem C09_decode_encode_payload_concrete :
 Proof.
   exact (fun m => decode_encode_payload jprint jparse m jparse_jprint jprint_obj_head).
 Qed.
+
+(** Encode is stateless (frame property): a phase of an Encode call - checks / header type /
+    deconstruct, payload, restore - leaves the shared Parser object exactly as it was, and what it
+    does to the call's own state (the caller's header and value, the frames) depends on nothing of
+    the Parser but its immutable configuration.  One Parser is shared, without a lock around
+    Encode, by every goroutine emitting on a socket and by every Broadcast of an adapter. *)
+Theorem C09_encode_is_stateless :
+  forall (marshal : jv -> bytes) (unmarshal : bytes -> option jv) ps ps' c,
+  fst (call_step marshal unmarshal ps c) = ps /\
+  (p_max ps = p_max ps' ->
+   snd (call_step marshal unmarshal ps c) = snd (call_step marshal unmarshal ps' c)).
+Proof. exact (fun m u ps ps' c => conj (call_frame m u ps c) (call_indep m u ps ps' c)). Qed.
+
+(** Hence for ANY interleaving of any number of Encode calls (each on its caller's own header
+    and value) and of any other operations on the same Parser (Add, Reset): every call that has
+    run to its end has returned exactly what [encode] says for its own arguments - frames, and
+    header and value as its caller sees them afterwards - so all the theorems above about [encode]
+    hold for each call of a concurrent execution. *)
+Theorem C09_concurrent_encode :
+  forall (marshal : jv -> bytes) (unmarshal : bytes -> option jv)
+         sched ps (calls : list (header * option gv)) i h v,
+  nth_error calls i = Some (h, v) ->
+  (3 <= runs i sched)%nat ->
+  let final := exec (call_step marshal unmarshal) other_op sched
+                    (ps, map (fun hv => start (fst hv) (snd hv)) calls) in
+  p_max (fst final) = p_max ps /\
+  exists c, nth_error (snd final) i = Some c /\
+    match encode marshal unmarshal (p_max ps) h v with
+    | Ok e => c = mkCall (e_header e) (e_value e) (EDone (Ok (e_frames e)))
+    | Err => k_ph c = EDone Err
+    | Panic => k_ph c = EDone Panic
+    end.
+Proof. exact concurrent_encode. Qed.
